@@ -368,6 +368,14 @@ def monC06 (h : Hist) : Option String :=
 def monC10 (h : Hist) : Option String :=
   first? [
     if h.leak > 0 then some s!"{h.leak} origin call(s) still pending after every timeout elapsed" else none,
+    -- "nor hangs": once the origin's failure has arrived, the stored response that is served in its place is served
+    -- then — not after the body of the failure reply, which nobody uses, has trickled in
+    h.reqs.findSome? (fun ri => do
+      let x ← h.ex ri
+      let c ← x.fgCalls.getLast?
+      if x.res.kind == "resp" && x.fromStore && c.outcome == "resp" && x.res.t1 > c.t1 + nsPerSec then
+        some s!"exchange {ri.n}: the stored response was returned {(x.res.t1 - c.t1) / nsPerSec} s after the origin's reply had arrived: RoundTrip waited for a body it does not use"
+      else none),
     h.bodyLeaks.head?.map fun p =>
       s!"exchange {p.1} ({p.2.1} call {p.2.2}): the origin's response body was neither read to its end nor closed (its connection is held for ever)",
     h.reqs.findSome? fun ri => do
